@@ -11,6 +11,7 @@ import (
 	"time"
 
 	"golang.org/x/crypto/ssh"
+	"golang.org/x/crypto/ssh/agent"
 
 	"verif/harness/internal/refpeer"
 	ra "verif/harness/internal/refsshauth"
@@ -21,6 +22,7 @@ import (
 type cliSigner struct {
 	Key   string   `json:"key"`
 	Algos []string `json:"algos,omitempty"` // NewSignerWithAlgorithms restriction (nil = plain signer)
+	Agent bool     `json:"agent,omitempty"` // signer obtained from an ssh-agent (agent.NewClient over a pipe to agent.ServeAgent)
 }
 
 type cliMethod struct {
@@ -46,10 +48,47 @@ type cliSpec struct {
 	Auth []cliMethod `json:"auth"`
 }
 
-func buildSigner(s cliSigner) (ssh.Signer, error) {
+// agentSigner serves the key from an in-memory agent and returns the
+// agent-backed signer; closers end the serving goroutine.
+func agentSigner(key *ra.Key, closers *[]func()) (ssh.Signer, error) {
+	kr := agent.NewKeyring()
+	ak := agent.AddedKey{PrivateKey: key.Plain().Priv}
+	if ed, ok := key.Plain().Priv.(ed25519.PrivateKey); ok {
+		ak.PrivateKey = &ed
+	}
+	if key.IsCert() {
+		pk, err := ssh.ParsePublicKey(key.Blob)
+		if err != nil {
+			return nil, err
+		}
+		ak.Certificate = pk.(*ssh.Certificate)
+	}
+	if err := kr.Add(ak); err != nil {
+		return nil, fmt.Errorf("agent keyring add %s: %v", key.Name, err)
+	}
+	a, b := net.Pipe()
+	done := make(chan struct{})
+	go func() { defer close(done); agent.ServeAgent(kr, b) }()
+	*closers = append(*closers, func() { a.Close(); b.Close(); <-done })
+	signers, err := agent.NewClient(a).Signers()
+	if err != nil {
+		return nil, fmt.Errorf("agent signers: %v", err)
+	}
+	for _, sg := range signers {
+		if bytes.Equal(sg.PublicKey().Marshal(), key.Blob) {
+			return sg, nil
+		}
+	}
+	return nil, fmt.Errorf("agent does not offer key %s", key.Name)
+}
+
+func buildSigner(s cliSigner, closers *[]func()) (ssh.Signer, error) {
 	key := ra.TestKeys().ByName[s.Key]
 	if key == nil {
 		return nil, fmt.Errorf("unknown key %q", s.Key)
+	}
+	if s.Agent {
+		return agentSigner(key, closers)
 	}
 	base, err := ssh.NewSignerFromKey(key.Plain().Priv)
 	if err != nil {
@@ -79,7 +118,7 @@ func buildSigner(s cliSigner) (ssh.Signer, error) {
 	return ssh.NewCertSigner(cert, base)
 }
 
-func buildClientConfig(spec *cliSpec) (*ssh.ClientConfig, error) {
+func buildClientConfig(spec *cliSpec, closers *[]func()) (*ssh.ClientConfig, error) {
 	cfg := &ssh.ClientConfig{User: spec.User, HostKeyCallback: ssh.InsecureIgnoreHostKey()}
 	for i := range spec.Auth {
 		m := &spec.Auth[i]
@@ -109,7 +148,7 @@ func buildClientConfig(spec *cliSpec) (*ssh.ClientConfig, error) {
 		case "publickey":
 			var signers []ssh.Signer
 			for _, s := range m.Signers {
-				sg, err := buildSigner(s)
+				sg, err := buildSigner(s, closers)
 				if err != nil {
 					return nil, err
 				}
@@ -144,6 +183,7 @@ type cliCase struct {
 	Prop   string    `json:"property"`
 	Client cliSpec   `json:"client"`
 	Script cliScript `json:"script"`
+	Policy *policy   `json:"policy,omitempty"` // if set, the server answers by policy instead of by tape (Script.SigAlgs still applies)
 }
 
 // cliReq is one USERAUTH_REQUEST the client wrote, with the script's answer.
@@ -230,7 +270,13 @@ var hostKeyPriv = ra.TestKeys().Host.Priv.(ed25519.PrivateKey)
 func runClientCase(cs *cliCase) (*cliTrace, error) {
 	dumpCase(cs)
 	tr := &cliTrace{Bound: requestBound(&cs.Client)}
-	cfg, err := buildClientConfig(&cs.Client)
+	var closers []func()
+	defer func() {
+		for _, f := range closers {
+			f()
+		}
+	}()
+	cfg, err := buildClientConfig(&cs.Client, &closers)
 	if err != nil {
 		return tr, fmt.Errorf("building client config: %v", err)
 	}
@@ -335,6 +381,7 @@ func runScript(cs *cliCase, tr *cliTrace, conn net.Conn) string {
 	}
 	s.WritePacket((&refpeer.W{}).Byte(refpeer.MsgServiceAccept).S("ssh-userauth").B)
 	lastMethods := []string{}
+	var polState polState
 	for n := 0; ; n++ {
 		p, err := s.ReadSkip(true)
 		if err != nil {
@@ -390,6 +437,26 @@ func runScript(cs *cliCase, tr *cliTrace, conn net.Conn) string {
 		a := sc.Tail
 		if n < len(sc.Tape) {
 			a = sc.Tape[n]
+		}
+		if cs.Policy != nil {
+			kbdOK := true
+			if q.Method == "keyboard-interactive" {
+				for i := 0; i < cs.Policy.KbdRounds; i++ {
+					s.WritePacket((&refpeer.W{}).Byte(refpeer.MsgUserAuthInfoRequest).S("vf").S("instruction").S("").U32(1).S("question?").Bool(false).B)
+					p, err := s.ReadSkip(true)
+					if err != nil {
+						tr.Reqs = append(tr.Reqs, q)
+						return ""
+					}
+					r := &refpeer.R{B: p[1:]}
+					if p[0] != refpeer.MsgUserAuthInfoResponse || r.U32() != 1 || r.S() != cs.Policy.KbdAnswer || r.Err != nil {
+						kbdOK = false
+					}
+					q.Rounds++
+				}
+			}
+			pa := cs.Policy.answer(&polState, q.Method, q.Key, q.Algo, q.Signed, q.SigOK && q.SigFmt == ra.Underlying(q.Algo), q.Password, kbdOK)
+			a = answer{Kind: pa.Kind, Methods: pa.Methods}
 		}
 		kind := a.Kind
 		isQuery := q.Method == "publickey" && !q.Signed
